@@ -1789,7 +1789,12 @@ package decimal128
 //@ loop 2: invariant 0 <= i && i <= l && l == len(d) && FLAGS && (trunc == 0 || trunc == 1) && eneg == (esg(d, i) == 1)
 //@ loop 2: invariant 0 - i <= nfrac && nfrac <= i && 0 <= nfd(d, i) && nfd(d, i) <= i && ND >= 0 && ND <= i
 //@ loop 2: invariant 0 <= exp && exp <= ev(d, i) && (exp == ev(d, i) || exp >= 100000000000000000) && exp < 1000000000000000010 && (ST <= 6 ==> ev(d, i) == 0 && esg(d, i) == 0)
-//@ loop 2: invariant (ND == 0 && u128(sig) == dv(d, i) && trunc == 0) || (ND >= 1 && sig[1] > 0x18ffffffffffffff && pw10(d, ND) >= 1 && u128(sig) * pw10(d, ND) <= dv(d, i) && dv(d, i) <= (u128(sig) + 1) * pw10(d, ND) - 1 && ((trunc == 0) == (dv(d, i) == u128(sig) * pw10(d, ND))))
+//@ loop 2: invariant ND == 0 ==> u128(sig) == dv(d, i) && trunc == 0
+//@ loop 2: invariant ND >= 1 ==> sig[1] > 0x18ffffffffffffff && pw10(d, ND) >= 1
+//@ loop 2: invariant ND >= 1 ==> u128(sig) * pw10(d, ND) <= dv(d, i)
+//@ loop 2: invariant ND >= 1 ==> dv(d, i) <= (u128(sig) + 1) * pw10(d, ND) - 1
+//@ loop 2: invariant ND >= 1 && trunc == 0 ==> dv(d, i) == u128(sig) * pw10(d, ND)
+//@ loop 2: invariant ND >= 1 && trunc != 0 ==> dv(d, i) >= u128(sig) * pw10(d, ND) + 1
 //@ loop 2: decreases l - i
 //@ apply before "return Decimal{}, parseNumberSyntaxError{}"#1: pst_absorbing(d, i + 1, len(d))
 //@ apply before "return Decimal{}, parseNumberSyntaxError{}"#2: pst_absorbing(d, i + 1, len(d))
